@@ -5,7 +5,7 @@
    it is tied to the code by the farm of ./check C19.  What no Gallina model exhibits —
    acceptance of the rendered text by the Go compiler — is observed there (partial).        *)
 From Coq Require Import List Bool String NArith.
-From GT Require Import IFaceModel IFaceNamesProofs IFaceEmbProofs IFaceRefProofs.
+From GT Require Import IFaceModel IFaceNamesProofs IFaceEmbProofs IFaceRefProofs IFaceUnionProofs IFaceAliasProofs.
 Import ListNotations.
 Local Open Scope string_scope.
 
@@ -154,7 +154,121 @@ Theorem C19_field_hides_method : forall t n m0, wf_tree t ->
   find_decl t n = Some m0 -> m_field m0 = true -> go_ms t n = false.
 Proof. exact field_not_in_method_set. Qed.
 
+(* ================================================================== import names are distinct (proved, not assumed) *)
+(* ImportHandler.unusedName: the name an on-demand import gets is not among the taken ones. *)
+Theorem C19_unused_name_fresh : forall taken name, ~ In (unused_name taken name) taken.
+Proof. exact unused_name_fresh. Qed.
+
+(* For every file that compiles (specs_okb: a predicate on the INPUT — its import specs bind
+   pairwise distinct names, none a package-level name), every embedding tree, every option
+   combination: the active imports FindInterface returns bind pairwise distinct names and none of
+   them is a package-level name of the package.  This is the hypothesis alias_injective of
+   C19_typeref / C19_interface, established from calcImports' and addNamed's algorithm. *)
+Theorem C19_alias_injective : forall e specs priv emb t,
+  e_unique_alias e = true -> specs_okb e specs = true ->
+  alias_injective (snd (find_interface e specs priv emb t)) /\
+  forall i, In i (snd (find_interface e specs priv emb t)) -> ~ In (i_alias i) (e_locals e).
+Proof. exact find_interface_aliases. Qed.
+
+(* The whole pipeline, closed: names = iface_names; the returned imports are alias-injective;
+   every qualifier of every signature is the alias of a returned import; and every signature
+   denotes the declared one — no hypothesis on the handler's state left. *)
+Theorem C19_interface_closed : forall e local specs priv emb t rs act,
+  e_unique_alias e = true -> specs_okb e specs = true ->
+  find_interface e specs priv emb t = (rs, act) ->
+  map rm_name rs = iface_names priv emb t /\
+  alias_injective act /\ (forall i, In i act -> ~ In (i_alias i) (e_locals e)) /\
+  Forall (fun m => exists m0, In m0 (all_meths t) /\ rm_name m = m_name m0 /\
+            (forall a, In a (qualifiers (rmeth_expr m)) -> has_alias act a) /\
+            (wf_ty (e_self e) local (meth_ty m0) ->
+             denote (e_self e) local act (rmeth_expr m) = Some (erase (meth_ty m0)))) rs.
+Proof. exact interface_closed. Qed.
+
+(* The code before fixes/C19-import-alias-collision.patch (e_unique_alias = false): a file
+   importing x/a/util whose struct embeds sib.E with M(t util.T), util = x/b/util, gets the imports
+   "x/a/util" and "x/b/util" — `util` bound twice, M(t util.T) denotes the wrong package — although
+   the file compiles; the current rule gives util2 "x/b/util" and M(t util2.T). *)
+Theorem C19_alias_orig_refuted :
+  specs_okb (ex_clash_env false) ex_clash_specs = true /\
+  map import_string (snd (find_interface (ex_clash_env false) ex_clash_specs false true ex_clash_tree))
+    = ["""x/a/util"""; """x/sib"""; """x/b/util"""] /\
+  ~ alias_injective (snd (find_interface (ex_clash_env false) ex_clash_specs false true ex_clash_tree)) /\
+  map signature (fst (find_interface (ex_clash_env false) ex_clash_specs false true ex_clash_tree))
+    = ["Own(x util.X) "; "M(t util.T) "] /\
+  map import_string (snd (find_interface (ex_clash_env true) ex_clash_specs false true ex_clash_tree))
+    = ["""x/a/util"""; """x/sib"""; "util2 ""x/b/util"""] /\
+  map signature (fst (find_interface (ex_clash_env true) ex_clash_specs false true ex_clash_tree))
+    = ["Own(x util.X) "; "M(t util2.T) "].
+Proof. exact alias_orig_refuted. Qed.
+
+(* Two types that one handler renders as the same reference are the same type (parameter names
+   inside func types aside): different types never render alike within one ImportHandler whose
+   active imports have distinct names (which C19_alias_injective establishes). *)
+Theorem C19_render_injective : forall e local t1 t2 st1 st1' st2 st2' x st'',
+  extract e st1 t1 = (x, st1') -> extract e st2 t2 = (x, st2') ->
+  extends st1' st'' -> extends st2' st'' ->
+  wf_ty (e_self e) local t1 -> wf_ty (e_self e) local t2 -> alias_injective (active st'') ->
+  erase t1 = erase t2.
+Proof. exact render_injective. Qed.
+
+(* IncludePrivate adds exactly the unexported ones. *)
+Theorem C19_private_adds_unexported : forall emb t n, wf_tree t ->
+  (In n (iface_names true emb t) <->
+   In n (iface_names false emb t) \/ (In n (iface_names true emb t) /\ exported n = false)).
+Proof. exact private_adds_unexported. Qed.
+
+(* ================================================================== interfaces that embed interfaces *)
+(* The method set of a named interface — what namedTypeToInterface lists through go/types for an
+   embedded interface — is a SET: every name declared by the interface or by any interface below
+   it occurs, and occurs once, however many of the embedded interfaces declare it; each member is
+   one of the declarations. *)
+Theorem C19_iface_union_is_set : forall i,
+  NoDup (map m_name (iface_methods i)) /\
+  (forall n, In n (map m_name (iface_methods i)) <-> In n (decl_names i)) /\
+  (forall m, In m (iface_methods i) -> In m (all_decls i)).
+Proof. exact iface_union_is_set. Qed.
+
+(* Duplicates with identical signatures merge: when the declarations of one name below the
+   interface have identical types (Go rejects anything else), every declared method is
+   represented by exactly one method of the set, with that name and that type. *)
+Theorem C19_iface_union_identical : forall i m0, wf_itree i -> In m0 (all_decls i) ->
+  exists m, In m (iface_methods i) /\ m_name m = m_name m0 /\ same_sig m m0 /\ is_meth m = true /\
+            forall m', In m' (iface_methods i) -> m_name m' = m_name m0 -> m' = m.
+Proof. exact iface_union_identical. Qed.
+
+(* A struct embedding a named interface I (any number of other embedded fields that do not
+   mention the name): every visible method of I — declared by I or by any interface I embeds, by
+   one of them or by several of them (Reader and Writer both with Close) — that the struct does not
+   define itself is collected with IncludeEmbedded and is in Go's method set of the struct. *)
+Theorem C19_embedded_iface_overlap_promoted : forall priv self own l1 i l2 n,
+  wf_stree (SStruct self own (l1 ++ SIface i :: l2)) ->
+  (forall a, In a (all_decls i) -> m_field a = false) ->
+  In n (decl_names i) -> visn priv n = true ->
+  ~ In n (map m_name own) ->
+  (forall f, In f (l1 ++ l2) -> ~ In n (all_names (flatten f))) ->
+  In n (iface_names priv true (flatten (SStruct self own (l1 ++ SIface i :: l2)))) /\
+  go_ms (flatten (SStruct self own (l1 ++ SIface i :: l2))) n = true.
+Proof. exact embedded_iface_overlap_promoted. Qed.
+
+(* The specification in the property's words holds of every declared tree (structs, pointers,
+   interfaces embedding interfaces to any depth) whose struct embedding is at most two levels deep. *)
+Theorem C19_embedded_src_two_levels : forall priv emb s n, height (flatten s) <= 2 -> wf_stree s ->
+  (In n (iface_names priv emb (flatten s)) <-> spec_methodb priv emb (flatten s) n = true).
+Proof. exact src_two_levels. Qed.
+
 (* ================================================================== non-vacuity *)
+(* Conn struct{ ReadWriter }, ReadWriter interface{ Reader; Writer }, Reader{Read;Close(force bool)},
+   Writer{Write;Close(bool)}: Close is one method, collected and promoted; a collection that lists the
+   inherited methods without merging them (seeded change C19-21) loses it in the merge. *)
+Example C19_example_iface_union :
+  wf_stree ex_conn /\ wf_itree ex_rw /\
+  map m_name (iface_methods ex_rw) = ["Read"; "Close"; "Write"] /\
+  map m_name (iface_methods_concat ex_rw) = ["Read"; "Close"; "Write"; "Close"] /\
+  iface_names false true (flatten ex_conn) = ["Addr"; "Read"; "Close"; "Write"] /\
+  iface_names false true (flatten_concat ex_conn) = ["Addr"; "Read"; "Write"] /\
+  go_ms (flatten ex_conn) "Close" = true.
+Proof. exact ex_conn_union. Qed.
+
 Example C19_example_names :
   final_names [PI "arg0" false false; PI "_" false false] [] = ["arg0"; "arg1"] /\
   final_names [PI "_" false false] [PI "arg0" false false] = ["arg1"; "arg0"] /\
@@ -173,7 +287,7 @@ Example C19_example_embedded :
   iface_names true true tree_S1 = ["Own"] /\ iface_names_orig true true tree_S1 = ["Own"; "Foo"].
 Proof. split; [exact tree_S1_wf|]. vm_compute. auto. Qed.
 
-Definition ex_env := Env "ex.com/p" [("ex.com/sib/v2", "realname"); ("context", "context")].
+Definition ex_env := Env "ex.com/p" [("ex.com/sib/v2", "realname"); ("context", "context")] ["L"; "S"] true.
 Definition ex_table := calc_imports ex_env [("context", None); ("ex.com/sib/v2", None); ("ex.com/sib/ren", Some "rr")].
 Definition ex_ty :=
   TFunc [(PI "a" false false, TNamed (Some ("ex.com/sib/v2", "realname")) "T" []);
@@ -277,3 +391,13 @@ Print Assumptions C19_embedded_selects.
 Print Assumptions C19_selector_rule.
 Print Assumptions C19_field_hides_method.
 Print Assumptions C19_import_binding.
+Print Assumptions C19_unused_name_fresh.
+Print Assumptions C19_alias_injective.
+Print Assumptions C19_interface_closed.
+Print Assumptions C19_alias_orig_refuted.
+Print Assumptions C19_render_injective.
+Print Assumptions C19_private_adds_unexported.
+Print Assumptions C19_iface_union_is_set.
+Print Assumptions C19_iface_union_identical.
+Print Assumptions C19_embedded_iface_overlap_promoted.
+Print Assumptions C19_embedded_src_two_levels.
